@@ -35,8 +35,10 @@ func Gen(cfgs []string) func(t *rapid.T) *Case {
 			c.Batch = rapid.IntRange(1, 7).Draw(t, "batch")
 		case "durable":
 			c.Chunk = rapid.SampledFrom([]int{1, 60, 130, 300, 0}).Draw(t, "chunk")
-			// batch >= log length: smaller batches cut chunks short (known finding, probed separately)
-			c.Batch = rapid.SampledFrom([]int{0, 25, 26, 100}).Draw(t, "batch")
+			// batches smaller than a server chunk cut it short (listed finding,
+			// probed separately): the interpreter measures the chunks of the
+			// replay and only judges batches that are at least that large
+			c.Batch = rapid.SampledFrom([]int{0, 1, 2, 3, 4, 5, 7, 8, 25, 26, 100}).Draw(t, "batch")
 		}
 		c.DupStore = rapid.IntRange(0, 3).Draw(t, "dupStore") == 0
 		c.Fill = rapid.SampledFrom([]string{"", "", "bus", "mixed"}).Draw(t, "fill")
